@@ -293,6 +293,9 @@ func (t *BPTree) WriteNode(n *Node, off int64, syncEnable bool, fd *os.File) (nu
 	if off == -1 {
 		off = n.Address
 	}
+	if h, _, herr := verifFS("write", fd.Name(), off, bn); h {
+		return 0, herr
+	}
 
 	number, err = fd.WriteAt(bn, off)
 	if err != nil {
@@ -300,6 +303,9 @@ func (t *BPTree) WriteNode(n *Node, off int64, syncEnable bool, fd *os.File) (nu
 	}
 
 	if syncEnable {
+		if h, _, herr := verifFS("sync", fd.Name(), 0, nil); h {
+			return 0, herr
+		}
 		err = fd.Sync()
 		if err != nil {
 			return 0, err
@@ -316,6 +322,9 @@ func (t *BPTree) WriteNodes(rwMode RWMode, syncEnable bool, flag int) error {
 		i   int
 		err error
 	)
+	if h, _, herr := verifFS("open", t.Filepath, 0, nil); h {
+		return herr
+	}
 
 	fd, err := os.OpenFile(t.Filepath, os.O_CREATE|os.O_RDWR, 0644)
 	defer fd.Close()
